@@ -64,6 +64,8 @@ def check_step(ctx, step, res, ref, spec_lines, spec_meta):
             sig = "C05:copy_-plain-operand-raises-AttributeError"
         elif step.name == "copy_" and "AssertionError" in exc_name(res) and all(oc.is_qb(o) for o in ops) and ops[0].qtype != ops[1].qtype:
             sig = "C05:copy_-other-qtype-raises-AssertionError"
+        elif step.name == "copy_" and all(oc.is_qb(o) for o in ops) and ops[0].qtype == ops[1].qtype and ops[0].axis != ops[1].axis:
+            sig = "C05:copy_-different-axis-raises"
         elif step.name == "t" and exc_name(res) == "ValueError" and oc.is_qb(ops[0]) and ops[0].ndim == 1:
             sig = "C05:t-on-1d-raises-ValueError"
         ctx.spec_failures.append((sig, {"op": name, "params": step.params, "operands": [oc.enc(o)[:200] for o in step.operands],
